@@ -573,6 +573,12 @@ def negotiate_unrestricted(
         cx = PresentationContext()
         cx.context_id = rcx.context_id
         cx.abstract_syntax = rcx.abstract_syntax
+        if not rcx.transfer_syntax:
+            # Reject context - no transfer syntax proposed
+            cx.result = 0x04
+            result_cx.append(cx)
+            continue
+
         cx.transfer_syntax = [rcx.transfer_syntax[0]]
         cx.result = 0x00
         cx._as_scu = True
@@ -651,7 +657,7 @@ def negotiate_as_acceptor(
             context = PresentationContext()
             context.context_id = rq_context.context_id
             context.abstract_syntax = rq_context.abstract_syntax
-            context.transfer_syntax = [rq_context.transfer_syntax[0]]
+            context.transfer_syntax = rq_context.transfer_syntax[:1]
             context.result = 0x03
             result_contexts.append(context)
         return result_contexts, []
@@ -727,7 +733,7 @@ def negotiate_as_acceptor(
             if context.result is None:
                 # Reject context - transfer syntax not supported
                 context.result = 0x04
-                context.transfer_syntax = [rq_context.transfer_syntax[0]]
+                context.transfer_syntax = rq_context.transfer_syntax[:1]
                 result_contexts.append(context)
             elif context.result == 0x00 and has_role:
                 # Create new SCP/SCU Role Selection Negotiation item
@@ -749,7 +755,7 @@ def negotiate_as_acceptor(
         else:
             # Reject context - abstract syntax not supported
             context.result = 0x03
-            context.transfer_syntax = [rq_context.transfer_syntax[0]]
+            context.transfer_syntax = rq_context.transfer_syntax[:1]
             result_contexts.append(context)
 
     # Sort by presentation context ID
